@@ -102,6 +102,20 @@ FIXED_DEPENDENCY_TYPES = re.compile(r'^cosmian_crypto_core::(R25519PrivateKey|R2
                                     r'SymmetricKey<\d+>|Secret<\d+>)$')
 
 
+def canon(body, origin):
+    """Name-free rendering of a transcript origin: parameters are named by the head of their type
+    (`param:UserId`, `param:RevisionVec`), so that renaming a parameter does not change violation keys."""
+    def rep(m):
+        nm = m.group(1)
+        for v in body.vars:
+            if v['name'] == nm and v['arg'] is not None and not v['pl']['p']:
+                ty = trans.strip_ref(body.local_ty(v['pl']['l']))
+                head = ty.split('<')[0].split('::')[-1]
+                return 'param:' + head
+        return m.group(0)
+    return re.sub(r'param:([A-Za-z_][A-Za-z_0-9]*)', rep, origin)
+
+
 def is_fixed_len(F, ty, depth=0):
     """Serializable::length of this crate type is a constant: it does not read self, or only forwards to
     the length of a fixed-size dependency type (table: FixedSizeCBytes key types of cosmian_crypto_core)."""
@@ -147,10 +161,10 @@ def mac_covers(ctx):
     h = hs[0]
     got = set()
     for u in h.events:
-        o = u.origin
-        if re.match(r'^elem\(param:id\)$', o):
+        o = canon(sb, u.origin)
+        if re.match(r'^elem\(param:UserId\)$', o):
             got.add('marker')
-        elif re.match(r'^elem\(param:keys\)\.0$', o):
+        elif re.match(r'^elem\(param:RevisionVec\)\.0$', o):
             got.add('right')
         elif re.search(r'@Classic\.sk$', o):
             got.add('classic.sk')
@@ -170,7 +184,7 @@ def mac_covers(ctx):
     # order: markers, then per right: right, then its secrets (key order)
     roles = []
     for u in h.events:
-        roles.append('marker' if 'param:id' in u.origin else ('right' if u.origin.endswith(').0') else 'secret'))
+        roles.append('marker' if 'param:UserId' in canon(sb, u.origin) else ('right' if u.origin.endswith(').0') else 'secret'))
     first_secret = roles.index('secret') if 'secret' in roles else len(roles)
     ctx.check(roles and roles[0] == 'marker' and 'right' in roles and roles.index('right') < first_secret, sb.key, 'order: id, right, secrets',
               'the MAC inputs are not absorbed in the order id, right, secrets (%s)' % roles, ' '.join(roles), sb.where())
@@ -192,6 +206,8 @@ def mac_framing(ctx):
         if sl.has_call(*lib.LEN_CALLS) or sl.has_call(r'::(len|count)$') or any(d.rv and d.rv['k'] == 'discr' for d in sl.rvs if d.kind == 'assign'):
             framing.append(u)
     # groups = distinct iteration sources; data = variable-length types; enums = variant-dependent shapes
+    for u in h.events:
+        u.origin = canon(sb, u.origin)
     groups = []
     for u in h.events:
         m = re.match(r'^(elem\(.*\))', u.origin)
